@@ -1193,6 +1193,8 @@ func (c *Compiler) optimizeFunc(node parser.Node) {
 	// or instructions between RETURN and jump target position
 	// are considered as unreachable.
 
+	verifIn, verifInMap := verifOptSnapshot(c)
+
 	// pass 1. identify all jump destinations
 	dsts := make(map[int]bool)
 	iterateInstructions(c.scopes[c.scopeIndex].Instructions,
@@ -1278,6 +1280,7 @@ func (c *Compiler) optimizeFunc(node parser.Node) {
 	if appendReturn {
 		c.emit(node, parser.OpReturn, 0)
 	}
+	verifOptReport(c, node, verifIn, verifInMap)
 }
 
 func (c *Compiler) emit(
